@@ -329,6 +329,7 @@ class Check:
             path.write_text(json.dumps({"property": self.pid, "key": v["key"], "what": v["what"], "seed": self.seed,
                                         "replay": v["replay"]}, indent=1, default=str))
             print("VIOLATION property=%s replay=%s" % (self.pid, path), flush=True)
+            self.log("  violation key: %s | %s" % (v["key"], str(v["what"])[:300]))
             nviol += 1
             rc = 1
         if self.broken and not self.violations:
@@ -339,6 +340,8 @@ class Check:
                                                 "checks and the failing-input search found no concrete input"},
                                        indent=1, default=str))
             print("VIOLATION property=%s replay=%s no-failing-input-found" % (self.pid, path), flush=True)
+            for b in self.broken[:5]:
+                self.log("  no longer checks: %s | %s" % (b["name"], str(b["detail"])[:300]))
             nviol += 1
             rc = 1
         elif self.broken:
